@@ -32,6 +32,24 @@ def parent(node):
     return getattr(node, '_parent', None)
 
 
+def clone(node, _par=None, _top=True):
+    ''' Structural copy of an AST subtree (positions kept).  The copy's root keeps the original's parent pointer;
+    copy.deepcopy would follow _parent and copy the whole enclosing module. '''
+    if isinstance(node, list):
+        return [clone(x, _par, False) for x in node]
+    if not isinstance(node, ast.AST):
+        return node
+    new = node.__class__()
+    for f in node._fields:
+        if hasattr(node, f):
+            setattr(new, f, clone(getattr(node, f), new, False))
+    for a in node._attributes:
+        if hasattr(node, a):
+            setattr(new, a, getattr(node, a))
+    new._parent = parent(node) if _top else _par
+    return new
+
+
 def ancestors(node):
     node = parent(node)
     while node is not None:
